@@ -493,12 +493,15 @@ def register(reg):
         later = PObj("Scenario", tag="later scenario")
         I.run_function(MD.state_function(I, "startScenario"), [later], {}, None)
         first = [sc, later] if I.eng.choose(2, "which one ends first") == 0 else [later, sc]
-        for s in first:
+        for k, s in enumerate(first):
             I.run_function(MD.state_function(I, "endScenario"), [s, "reason"], {"quiet": True}, None)
+            if k == 0:
+                lst = st.get("runningScenarios")
+                I.eng.check(f"{name}#ensures.endScenario_removes_exactly_the_given_scenario", len(lst.items) == len(others) + 1 and lst.items[-1] is first[1] and all(a is b for a, b in zip(lst.items, others)))
         lst = st.get("runningScenarios")
         I.eng.check(f"{name}#ensures.then_endScenario_restores_the_list", len(lst.items) == len(others) and all(a is b for a, b in zip(lst.items, others)))
 
-    reg.add(C.Contract(f"{V}:startScenario", params=dict(scenario=C.Const(None)), closure_env=state_env, setup=setup_start, post=post_start, properties=("C14",)))
+    reg.add(C.Contract(f"{V}:startScenario", params=dict(scenario=C.Const(None)), closure_env=state_env, setup=setup_start, post=post_start, replay=replay_running_scenarios, properties=("C14",)))
 
     # =============================================================================== instantiateSimulator
     def setup_inst(I, env):
@@ -535,7 +538,9 @@ scenario Main():
 """
 
 PROG_DIRTY = """
+from scenic.core.simulators import DummySimulator as DummySimulatorFactory
 param p = 5
+simulator DummySimulatorFactory()
 scenario Sub():
     setup:
         ego = new Object
@@ -544,14 +549,28 @@ scenario Main():
         ego = new Object
 """
 
+# a simulation that exercises sub-scenarios ending out of order, nested behaviors (still running when the
+# simulation ends), overrides and 2D mode
 PROG_SIM = """
-scenario Sub():
+behavior Inner():
+    while True:
+        take 1
+behavior Outer():
+    do Inner()
+scenario A():
     setup:
-        other = new Object at (10, 10)
+        a = new Object at (10, 10), with behavior Outer
         terminate after 1 steps
+scenario B():
+    setup:
+        b = new Object at (20, 20)
+        override ego with foo 1
+        terminate after 5 steps
 scenario Main():
+    setup:
+        ego = new Object with behavior Outer, with foo 0
     compose:
-        do Sub()
+        do A(), B()
 """
 
 
@@ -586,7 +605,7 @@ def replay_compile_twice(inputs, clause):
     fresh = _veneer_snapshot()
     comp = _component(clause)
     first = scenic.scenarioFromString(PROG_INITIAL, scenario="Main")
-    scenic.scenarioFromString(PROG_DIRTY, scenario="Main", mode2D=True, params={"q": 1})
+    scenic.scenarioFromString(PROG_DIRTY, scenario="Main", mode2D=True, params={"q": 1}, model="scenic.simulators.newtonian.model")
     after = _veneer_snapshot()
     diffs = [nm for nm in fresh if _differs(fresh[nm], after[nm])]
     if comp is not None and comp not in diffs:
@@ -601,6 +620,40 @@ def replay_compile_twice(inputs, clause):
     return f"after compilation veneer.{nm} = {after[nm]!r} (fresh process: {fresh[nm]!r}){extra}"
 
 
+def replay_running_scenarios(inputs, clause):
+    """Sub-scenarios that end out of order: the list of running scenarios must name exactly the running ones."""
+    import scenic
+    import scenic.syntax.veneer as veneer
+    from scenic.core.simulators import DummySimulation, DummySimulator
+
+    seen = []
+
+    class Sim(DummySimulation):
+        def step(self):
+            seen.append([(str(s), s._isRunning) for s in veneer.runningScenarios])
+            super().step()
+
+    class Simulator(DummySimulator):
+        def createSimulation(self, scene, **kwargs):
+            return Sim(scene, **kwargs)
+
+    sc = scenic.scenarioFromString(PROG_SIM, scenario="Main")
+    scene, _ = sc.generate()
+    try:
+        Simulator().simulate(scene, maxSteps=3)
+    except AssertionError as e:
+        import traceback
+
+        where = traceback.extract_tb(e.__traceback__)[-1]
+        return f"with sub-scenarios A (ends after 1 step) and B running in parallel the simulation fails with AssertionError at {where.filename.rsplit('/', 1)[-1]}:{where.lineno} ({where.line}); veneer.runningScenarios per step: {seen}"
+    for k, lst in enumerate(seen):
+        if any(not running for _, running in lst):
+            return f"at step {k} veneer.runningScenarios lists a stopped scenario: {lst}"
+    if veneer.runningScenarios:
+        return f"veneer.runningScenarios = {veneer.runningScenarios} after the simulation"
+    return None
+
+
 def replay_simulate_then_compile(inputs, clause):
     """Compile + sample + simulate, then compare the veneer state with the fresh-process state."""
     import scenic
@@ -608,10 +661,16 @@ def replay_simulate_then_compile(inputs, clause):
 
     fresh = _veneer_snapshot()
     comp = _component(clause)
-    sc = scenic.scenarioFromString(PROG_SIM, scenario="Main")
+    sc = scenic.scenarioFromString(PROG_SIM, scenario="Main", mode2D=True)
     before = _veneer_snapshot()
     scene, _ = sc.generate()
-    DummySimulator().simulate(scene, maxSteps=3)
+    try:
+        DummySimulator().simulate(scene, maxSteps=3)
+    except AssertionError as e:
+        import traceback
+
+        where = traceback.extract_tb(e.__traceback__)[-1]
+        return f"the simulation fails with AssertionError at {where.filename.rsplit('/', 1)[-1]}:{where.lineno} ({where.line})"
     after = _veneer_snapshot()
     diffs = [nm for nm in fresh if _differs(fresh[nm], after[nm]) and not _differs(fresh[nm], before[nm])]
     if comp is not None and comp not in diffs:
@@ -862,43 +921,39 @@ def register_overrides(reg):
 
 
 def replay_override_twice(inputs, clause):
-    """A real dynamic scenario overriding two properties of the same object with two `override` statements."""
+    """A real dynamic scenario overriding properties of the same object with the sequence of `override`
+    statements of the counter-model (default: foo, then bar)."""
+    import ast as _ast
+
     import scenic
     from scenic.core.simulators import DummySimulator
 
-    src = """
-behavior B():
-    while True:
-        take 1
-scenario Sub():
-    setup:
-        override ego with foo 1
-        override ego with bar 2
-        terminate after 2 steps
-scenario Main():
-    setup:
-        ego = new Object with foo 0, with bar 0, with behavior B
-        record ego.foo as foo
-        record ego.bar as bar
-    compose:
-        do Sub()
-        wait
-        wait
-"""
+    seq = [("foo",), ("bar",)]
+    if isinstance(inputs, dict) and inputs.get("overrides"):
+        seq = [tuple(x) for x in _ast.literal_eval(inputs["overrides"])]
+        if any(k.startswith("this_override.") for k in inputs):
+            seq.append(tuple(k.split(".", 1)[1] for k in inputs if k.startswith("this_override.")))
+    stmts = []
+    for k, props in enumerate(seq):
+        stmts.append("        override ego " + ", ".join(f"with {p} {k + 1}" for p in props))
+    src = (
+        "behavior B():\n    while True:\n        take 1\n"
+        "scenario Sub():\n    setup:\n" + "\n".join(stmts) + "\n        terminate after 2 steps\n"
+        "scenario Main():\n    setup:\n        ego = new Object with foo 0, with bar 0, with behavior B\n"
+        "        record ego.foo as foo\n        record ego.bar as bar\n    compose:\n        do Sub()\n        wait\n        wait\n"
+    )
     sc = scenic.scenarioFromString(src, scenario="Main")
     scene, _ = sc.generate()
     sim = DummySimulator().simulate(scene, maxSteps=6)
     want = clause.split("[", 1)[1].rstrip("]") if "[" in clause else None
     for prop in ("foo", "bar"):
-        if want not in (None, prop) and want in ("foo", "bar"):
+        if want in ("foo", "bar") and want != prop:
             continue
         series = dict(sim.result.records[prop])
-        if series[0] == 0:
-            return f"the override of {prop} did not take effect"
         last = series[max(series)]
         if last != 0:
             return (
-                f"Sub does `override ego with foo 1` then `override ego with bar 2` and stops after 2 steps; afterwards ego.{prop} still reads {last} "
+                f"scenario Sub does {'; '.join(x.strip() for x in stmts)} and stops after 2 steps; afterwards ego.{prop} still reads {last} "
                 f"(before the overrides: 0); recorded {prop}: {sorted(series.items())}"
             )
     return None
@@ -910,14 +965,15 @@ scenario Main():
 
 def register_simulation_cleanup(reg):
     SIMCLS = f"{SIM}:Simulation"
+    REJECT = "scenic.core.dynamics.utils:RejectSimulationException"
 
     def result_ctor(I, cls, args, kwargs):
-        MD.maybe_raise(I, "SimulationResult()")
         r = PObj(cls, tag="result")
         r.fields["args"] = tuple(args)
         return r
 
     reg.constructors[f"{SIM}:SimulationResult"] = result_ctor
+    reg.trust("SimulationResult(...)", "constructor stub: a record of its arguments")
 
     def setup_init(I, env):
         eng = I.eng
@@ -938,7 +994,6 @@ def register_simulation_cleanup(reg):
 
         def beh_stop(reason=None):
             log.append(("behavior._stop",))
-            MD.maybe_raise(I, "cleanup: behavior._stop()")
             beh.fields["_isRunning"] = False
 
         beh.fields["_stop"] = BuiltinFn("_stop", beh_stop)
@@ -947,30 +1002,28 @@ def register_simulation_cleanup(reg):
         dyn = PObj("DynamicScenario", tag="top-level scenario")
         dyn.fields["_setup"] = None
         dyn.fields["_isRunning"] = False
-        dyn.fields["_bindTo"] = BuiltinFn("_bindTo", lambda sc: MD.maybe_raise(I, "dynamicScenario._bindTo(scene) inside beginSimulation"))
+        dyn.fields["_bindTo"] = BuiltinFn("_bindTo", lambda sc: None)
 
         def dyn_start():
             dyn.fields["_isRunning"] = True
             st.get("runningScenarios").items.append(dyn)
-            MD.maybe_raise(I, "dynamicScenario._start() before the behaviors start")
+            MD.maybe_raise(I, "dynamicScenario._start(): a precondition of the scenario is violated")
             beh.fields["_isRunning"] = True
-            MD.maybe_raise(I, "dynamicScenario._start() after the behaviors started (a monitor's precondition)")
+            MD.maybe_raise(I, "dynamicScenario._start(): a precondition of a monitor is violated (behaviors already started)")
 
         def dyn_stop(reason, quiet=False):
             log.append(("scenario._stop", reason, quiet))
-            if quiet:
-                MD.maybe_raise(I, "cleanup: scenario._stop(quiet=True)")
             st.get("runningScenarios").items.remove(dyn)
             dyn.fields["_isRunning"] = False
             if not quiet:
-                MD.maybe_raise(I, "scenario._stop(): `require eventually` never satisfied", repo_class("scenic.core.dynamics.utils:RejectSimulationException"))
+                MD.maybe_raise(I, "scenario._stop(): a `require eventually` was never satisfied", repo_class(REJECT))
             return reason
 
         dyn.fields["_start"] = BuiltinFn("_start", dyn_start)
         dyn.fields["_stop"] = BuiltinFn("_stop", dyn_stop)
 
         def rec(ty, step):
-            MD.maybe_raise(I, "a `record final` expression")
+            MD.maybe_raise(I, "a `record final` expression raises")
             return PDict([("r", 1)])
 
         dyn.fields["_evaluateRecordedExprs"] = BuiltinFn("_evaluateRecordedExprs", rec)
@@ -992,18 +1045,18 @@ def register_simulation_cleanup(reg):
             MD.maybe_raise(I, "simulator-specific setup() after the base implementation")
 
         self.fields["setup"] = BuiltinFn("setup", sim_setup)
-        self.fields["updateObjects"] = BuiltinFn("updateObjects", lambda: MD.maybe_raise(I, "updateObjects() (simulator read-back)"))
+        self.fields["updateObjects"] = BuiltinFn("updateObjects", lambda: MD.maybe_raise(I, "updateObjects(): the simulator read-back raises"))
 
         def run(dynamicScenario, maxSteps):
-            MD.maybe_raise(I, "_run(): user code or the simulator raises during a step")
-            MD.maybe_raise(I, "_run(): the simulation is rejected", repo_class("scenic.core.dynamics.utils:RejectSimulationException"))
+            MD.maybe_raise(I, "_run(): the simulator's step() raises")
+            MD.maybe_raise(I, "_run(): the simulation is rejected", repo_class(REJECT))
             return ("termination type", "reason")
 
         self.fields["_run"] = BuiltinFn("_run", run)
 
         def destroy():
             log.append(("destroy",))
-            MD.maybe_raise(I, "cleanup: destroy()")
+            MD.maybe_raise(I, "cleanup: destroy() raises")
 
         self.fields["destroy"] = BuiltinFn("destroy", destroy)
         env.vars.update(self=self, scene=scene, maxSteps=5, name="sim", timestep=None)
@@ -1015,31 +1068,29 @@ def register_simulation_cleanup(reg):
         faults = MD.faults_on_path(I)
         cleanup_faults = [f for f in faults if f.startswith("cleanup:")]
         body_faults = [f for f in faults if not f.startswith("cleanup:")]
-        where = "cleanup_fault" if cleanup_faults else ("try_body_fault" if body_faults else "normal_run")
-        name = f"simulators.Simulation.__init__"
+        where = "destroy_raises" if cleanup_faults else ("failure_in_try_body" if body_faults else "normal_run")
+        name = "simulators.Simulation.__init__"
         detail = f"faults: {faults!r}; outcome: {outcome[0]} {outcome[1] if outcome[0] == 'raise' else ''}"
         eng.input_syms.append(("faults", C.Const(None), repr(faults)))
         log, objs, beh, dyn = env.vars["_log"], env.vars["_objs"], env.vars["_beh"], env.vars["_dyn"]
 
-        def chk(what, ok):
-            eng.check(f"{name}#ensures.{what}@{where}", ok, detail=detail)
+        def chk(what, ok, extra=""):
+            eng.check(f"{name}#ensures.{what}@{where}", ok, detail=detail + extra)
 
         if not faults:
-            chk("returns_normally", outcome[0] == "return")
+            chk("returns_normally_with_a_result", outcome[0] == "return" and env.vars["self"].fields.get("result") is not None)
         elif not cleanup_faults:
             # the exception that ended the run is the one the caller sees (not one raised by the clean-up itself)
-            ok = outcome[0] == "raise" and outcome[1].args and isinstance(outcome[1].args[0], str) and outcome[1].args[0] == f"raised by {body_faults[0]}"
+            ok = outcome[0] == "raise" and bool(outcome[1].args) and outcome[1].args[0] == f"raised by {body_faults[0]}"
             chk("the_original_exception_propagates", ok)
-        chk("destroy_called_once", log.count(("destroy",)) == 1)
-        for o in objs:
-            chk("every_dynamic_proxy_disabled", o.fields["_dynamicProxy"] is o)
-        chk("no_behavior_left_running", beh.fields["_isRunning"] is False)
-        chk("no_scenario_left_running", dyn.fields["_isRunning"] is False and not st.get("runningScenarios").items)
-        if body_faults and not cleanup_faults:
-            chk("scenarios_stopped_quietly_after_a_failure", all(e[2] is True for e in log if e[0] == "scenario._stop") or body_faults[0].startswith("scenario._stop") or body_faults[0].startswith("a `record final`") or body_faults[0].startswith("SimulationResult"))
-        for nm in st.all_names():
-            ok = MD.same_value(I, st.get(nm), st.initial(I, nm))
-            eng.check(f"{name}#ensures.veneer_state_as_in_a_fresh_process[{nm}]@{where}", ok, detail=detail + f"; veneer.{nm} = {st.get(nm)!r}")
+        chk("destroy_called_exactly_once", log.count(("destroy",)) == 1)
+        chk("every_dynamic_proxy_disabled", all(o.fields["_dynamicProxy"] is o for o in objs))
+        chk("no_behavior_or_scenario_left_running", beh.fields["_isRunning"] is False and dyn.fields["_isRunning"] is False and not st.get("runningScenarios").items)
+        if body_faults and not body_faults[0].startswith(("scenario._stop", "a `record final`")):
+            # stopped by the clean-up: without evaluating `require eventually` (which could reject and hide the failure)
+            chk("scenarios_stopped_quietly_after_a_failure", all(e[2] is True for e in log if e[0] == "scenario._stop"))
+        dirty = [nm for nm in st.all_names() if MD.same_value(I, st.get(nm), st.initial(I, nm)) is not True]
+        chk("veneer_state_as_in_a_fresh_process", not dirty, extra="; differing components: " + ", ".join(f"{nm} = {st.get(nm)!r}" for nm in dirty))
 
     reg.add(
         C.Contract(
@@ -1050,6 +1101,8 @@ def register_simulation_cleanup(reg):
             inline=["isActive", "Simulation._createObject", "enableDynamicProxyFor", "disableDynamicProxyFor", "Simulation.setup"],
             raises=[C.Raises("Exception", mode="may")],
             replay=replay_simulation_faults,
+            note="bounded: a scene of two objects (one agent); every modelled callee of the try body may raise; in the clean-up only the simulator's destroy() may raise",
+            bounded=True,
             properties=("C14",),
         )
     )
@@ -1059,14 +1112,19 @@ FAULT_PROGRAM = """
 behavior B():
     while True:
         take 1
-ego = new Object with behavior B
-other = new Object at (10, 10)
+class Thing(Object):
+    def startDynamicSimulation(self):
+        if globalParameters.failStart == self.idx:
+            raise RuntimeError("startDynamicSimulation failed")
+param failStart = -1
+ego = new Thing with behavior B, with idx 0
+other = new Thing at (10, 10), with idx 1
 """
 
 
 def replay_simulation_faults(inputs, clause):
-    """Inject the fault of the counter-model into a real simulation (DummySimulation subclass), then look at
-    the veneer state, the scene's objects and a second simulation of the same scene."""
+    """Inject the fault of the counter-model into a real simulation (DummySimulation subclass / real Scenic
+    program), then look at the veneer state, the scene's objects and a second simulation of the same scene."""
     import ast as _ast
 
     import scenic
@@ -1075,48 +1133,63 @@ def replay_simulation_faults(inputs, clause):
     faults = _ast.literal_eval(inputs.get("faults", "[]")) if isinstance(inputs, dict) else []
     if not faults:
         return None
-    fault = faults[0]
 
     class Boom(Exception):
         pass
 
     def boom(*a, **k):
-        raise Boom(fault)
+        raise Boom("injected")
 
     methods = {}
-    if fault.startswith("simulator-specific setup() before"):
+    program, params, expect_boom = FAULT_PROGRAM, {}, True
+    for fault in faults:
+        if fault.startswith("simulator-specific setup() before"):
 
-        def setup(self):
-            boom()
-            super(Sim, self).setup()
+            def setup(self):
+                boom()
+                super(Sim, self).setup()
 
-        methods["setup"] = setup
-    elif fault.startswith("simulator-specific setup() after"):
+            methods["setup"] = setup
+        elif fault.startswith("simulator-specific setup() after"):
 
-        def setup(self):
-            super(Sim, self).setup()
-            boom()
-
-        methods["setup"] = setup
-    elif fault.startswith("createObjectInSimulator(object 1"):
-        state = {"n": 0}
-
-        def create(self, obj):
-            state["n"] += 1
-            if state["n"] == 2:
+            def setup(self):
+                super(Sim, self).setup()
                 boom()
 
-        methods["createObjectInSimulator"] = create
-    elif fault.startswith("createObjectInSimulator"):
-        methods["createObjectInSimulator"] = boom
-    elif fault.startswith("updateObjects"):
-        methods["getProperties"] = boom
-    elif fault.startswith("_run(): user code"):
-        methods["step"] = boom
-    elif fault.startswith("cleanup: destroy"):
-        methods["destroy"] = boom
-    else:
-        return None
+            methods["setup"] = setup
+        elif fault.startswith("createObjectInSimulator(object 1"):
+            state = {"n": 0}
+
+            def create(self, obj):
+                state["n"] += 1
+                if state["n"] == 2:
+                    boom()
+
+            methods["createObjectInSimulator"] = create
+        elif fault.startswith("createObjectInSimulator"):
+            methods["createObjectInSimulator"] = boom
+        elif fault.startswith("object 0.startDynamicSimulation"):
+            params, expect_boom = {"failStart": 0}, False
+        elif fault.startswith("object 1.startDynamicSimulation"):
+            params, expect_boom = {"failStart": 1}, False
+        elif fault.startswith("updateObjects"):
+            methods["getProperties"] = boom
+        elif fault.startswith("_run(): the simulator's step"):
+            methods["step"] = boom
+        elif fault.startswith("_run(): the simulation is rejected"):
+            program, expect_boom = FAULT_PROGRAM + "require always False\n", False
+        elif fault.startswith("scenario._stop()"):
+            program, expect_boom = FAULT_PROGRAM + "require eventually False\n", False
+        elif fault.startswith("a `record final`"):
+            program, expect_boom = FAULT_PROGRAM + "record final (1 / (ego.idx)) as boom\n", False
+        elif fault.startswith("dynamicScenario._start(): a precondition of the scenario"):
+            program, expect_boom = FAULT_PROGRAM.replace("behavior B():", "behavior B():\n    precondition: False"), False
+        elif fault.startswith("dynamicScenario._start(): a precondition of a monitor"):
+            program, expect_boom = FAULT_PROGRAM + "monitor M():\n    precondition: False\n    wait\nrequire monitor M()\n", False
+        elif fault.startswith("cleanup: destroy"):
+            methods["destroy"] = boom
+        else:
+            return None
     Sim = type("Sim", (DummySimulation,), methods)
 
     class Simulator(DummySimulator):
@@ -1124,33 +1197,45 @@ def replay_simulation_faults(inputs, clause):
             return Sim(scene, **kwargs)
 
     fresh = _veneer_snapshot()
-    sc = scenic.scenarioFromString(FAULT_PROGRAM)
+    sc = scenic.scenarioFromString(program, params=params)
     scene, _ = sc.generate()
     seen = None
     try:
-        Simulator().simulate(scene, maxSteps=2)
+        Simulator().simulate(scene, maxSteps=2, maxIterations=1, raiseGuardViolations=True)
     except BaseException as e:  # noqa
         seen = e
     after = _veneer_snapshot()
     problems = []
-    if not isinstance(seen, Boom):
-        problems.append(f"the caller sees {type(seen).__name__}: {seen} instead of the exception raised by the simulator interface")
+    body_fault = [f for f in faults if not f.startswith("cleanup:")]
+    if body_fault and not methods.get("destroy") and isinstance(seen, (AttributeError, AssertionError)):
+        problems.append(f"the caller sees {type(seen).__name__}: {seen} instead of the exception that ended the run")
     dirty = [nm for nm in fresh if _differs(fresh[nm], after[nm])]
     for nm in dirty:
         problems.append(f"veneer.{nm} = {after[nm]!r} afterwards (fresh process: {fresh[nm]!r})")
     for k, o in enumerate(scene.objects):
         if object.__getattribute__(o, "_dynamicProxy") is not o:
             problems.append(f"scene object {k} still reads through its dynamic proxy")
-    try:
-        DummySimulator().simulate(scene, maxSteps=2)
-    except BaseException as e:  # noqa
-        problems.append(f"a later simulation of the same scene with the plain DummySimulator fails with {type(e).__name__}: {e}")
-    comp = _component(clause.split("@")[0])
-    if comp is not None and not any(f"veneer.{comp} " in p for p in problems):
-        return None
+        b = o.behavior
+        if b is not None and b._isRunning:
+            problems.append(f"the behavior of scene object {k} is still running")
+    if problems:
+        try:
+            DummySimulator().simulate(scene, maxSteps=2)
+        except BaseException as e:  # noqa
+            problems.append(f"a later simulation of the same scene with the plain DummySimulator fails with {type(e).__name__}: {e}")
+    what = clause.split("#ensures.")[-1].split("@")[0]
+    relevant = {
+        "the_original_exception_propagates": ("the caller sees",),
+        "every_dynamic_proxy_disabled": ("dynamic proxy",),
+        "no_behavior_or_scenario_left_running": ("still running", "runningScenarios"),
+        "veneer_state_as_in_a_fresh_process": ("veneer.",),
+    }.get(what)
+    if relevant is not None:
+        if not any(any(r in p for r in relevant) for p in problems):
+            return None
     if not problems:
         return None
-    return f"fault injected: {fault}: " + "; ".join(problems[:4])
+    return f"fault injected: {faults!r}: " + "; ".join(problems[:5])
 
 
 # ====================================================================================================
